@@ -555,6 +555,11 @@ func c04Tokens(c *Ctx, p *Prog, m *Model, mr *ModeReach) {
 			}
 			return true, false
 		}
+		// a finite float is a JSON number: the text may go unquoted where, in this mode, the block is entered only when
+		// a test of math.IsNaN and math.IsInf on the value failed
+		if finiteOnly(cs.Block(), mr.Mode) {
+			return true
+		}
 		before, afterQ := false, false
 		for i := idx - 1; i >= 0; i-- {
 			if em, q := isQ(b.Instrs[i]); em {
@@ -932,4 +937,59 @@ func modeRegionCalls(p *Prog, mr *ModeReach, fn *ssa.Function) []CallSite {
 		}
 	}
 	return out
+}
+
+// finiteOnly: some branch edge dominating b is the false side of a boolean whose leaves (through the joins of
+// short-circuit evaluation) contain calls of both math.IsNaN and math.IsInf, every other leaf being a constant or
+// a mode bit that is true in this mode (so that, in this mode, the boolean is false only when both tests failed).
+func finiteOnly(b *ssa.BasicBlock, mode Mode) bool {
+	for _, g := range guardsOf(b) {
+		cond, neg := normCond(g.If.Cond)
+		if (g.Succ == 1) == neg { // we need the edge on which cond is false
+			continue
+		}
+		nan, inf, bad := false, false, false
+		seen := map[ssa.Value]bool{}
+		var walk func(v ssa.Value, depth int)
+		walk = func(v ssa.Value, depth int) {
+			if seen[v] || depth > 5 {
+				return
+			}
+			seen[v] = true
+			switch x := v.(type) {
+			case *ssa.Phi:
+				for i, e := range x.Edges {
+					if _, isC := e.(*ssa.Const); isC {
+						// a short-circuit constant: the operand that decided it is the condition of the predecessor
+						if pi := ifOf(x.Block().Preds[i]); pi != nil {
+							c2, _ := normCond(pi.Cond)
+							walk(c2, depth+1)
+						}
+						continue
+					}
+					walk(e, depth+1)
+				}
+			case *ssa.Const:
+			case *ssa.Call:
+				switch cal := calleeOf(x); {
+				case cal != nil && cal.String() == "math.IsNaN":
+					nan = true
+				case cal != nil && cal.String() == "math.IsInf":
+					inf = true
+				default:
+					bad = true
+				}
+			default:
+				if mv, ok := modeCond(v, mode); ok && mv {
+					return
+				}
+				bad = true
+			}
+		}
+		walk(cond, 0)
+		if nan && inf && !bad {
+			return true
+		}
+	}
+	return false
 }
